@@ -370,7 +370,7 @@ pub fn run(args: &Args) -> i32 {
     let mut rep = Report::new("C15", args.tier, args.seed, "exploration");
     rep.exhaustive = true;
     rep.rule = format!(
-        "integers: prefix sizes 1..8 x all flag values x boundary values (0, 2^N-2..2^N+1, +127/+128, 2^k-1/2^k/2^k+1 for k<=64) through encode->decode; decode of every first byte x every continuation sequence of length <= {} over {{00,01,7f,80,81,ff}}, 5..18-byte all-ff/80/81 tails with and without terminator, padded (non-minimal) encodings, every truncation. Strings: encode->decode of all byte strings of length <= {} (prefix size 8) and length <= 1 for sizes 2..7, lengths around the 7-bit prefix boundary; decode of all Huffman-flagged payloads of 0..{} bytes; every 1-symbol string followed by every padding of the two byte-aligned lengths in 0..15 bits and every bit pattern; EOS after every symbol and at every byte alignment; non-Huffman literals at prefix boundaries and every truncation. Oracle refimpl::{{qint,qstr,huffman}} (table from quiche's octets crate). Non-trivial = inputs longer than one byte.",
+        "integers: prefix sizes 1..8 x all flag values x boundary values (0, 2^N-2..2^N+1, +127/+128, 2^k-1/2^k/2^k+1 for k<=64) through encode->decode; decode of every first byte x every continuation sequence of length <= {} over {{00,01,7f,80,81,ff}}, 5..18-byte all-ff/80/81 tails with and without terminator, padded (non-minimal) encodings, every truncation. Strings: encode->decode of all byte strings of length <= {} (prefix size 8) and length <= 1 for sizes 2..7, lengths around the 7-bit prefix boundary; decode of all Huffman-flagged payloads of 0..{} bytes; every 1-symbol string followed by every padding of the two byte-aligned lengths in 0..15 bits and every bit pattern; EOS after every symbol and at every byte alignment; EOS (after nothing / one symbol of every code length) followed by every byte value, ff + every byte value, more EOS bits, all-ones strings of 4..10 bytes; non-Huffman literals at prefix boundaries and every truncation. Oracle refimpl::{{qint,qstr,huffman}} (table from quiche's octets crate). Non-trivial = inputs longer than one byte.",
         if thorough { 4 } else { 3 },
         if thorough { 3 } else { 2 },
         if thorough { 3 } else { 2 }
@@ -477,6 +477,42 @@ pub fn run(args: &Args) -> i32 {
             bits.push(1);
         }
         v.push(huff_literal(8, &pack(&bits)));
+        jobs.push(Job::StrDec(8, v));
+    }
+    // (2b) what follows an EOS: after nothing and after one symbol of every code length, the 30 EOS bits (plus
+    // alignment ones) followed by every byte value, by ff + every byte value, by a further EOS, and all-ones
+    // strings of 4..10 bytes
+    {
+        let mut by_len: std::collections::BTreeMap<u32, usize> = Default::default();
+        for s in 0..256usize {
+            by_len.entry(rh::code(s).0).or_insert(s);
+        }
+        let mut prefixes: Vec<Vec<u8>> = vec![vec![]];
+        prefixes.extend(by_len.values().map(|s| code_bits(*s)));
+        let mut v = Vec::new();
+        for pre in &prefixes {
+            let mut bits = pre.clone();
+            bits.extend(std::iter::repeat(1).take(30));
+            while bits.len() % 8 != 0 {
+                bits.push(1);
+            }
+            let base = pack(&bits);
+            for b in 0..=255u8 {
+                let mut x = base.clone();
+                x.push(b);
+                v.push(huff_literal(8, &x));
+                let mut y = base.clone();
+                y.push(0xff);
+                y.push(b);
+                v.push(huff_literal(8, &y));
+            }
+            let mut z = base.clone();
+            z.extend_from_slice(&[0xff, 0xff, 0xff, 0xff]);
+            v.push(huff_literal(8, &z));
+        }
+        for n in 4..=10usize {
+            v.push(huff_literal(8, &vec![0xff; n]));
+        }
         jobs.push(Job::StrDec(8, v));
     }
     // (3) two-symbol strings over a subset covering every code length, canonical and over-long padding
